@@ -326,6 +326,9 @@ def generate(rng, idx, tier, variant):
     np_err = rng.choice(['default'] * 7 + ['ignore', 'warn', 'raise'])
     # (with the caller's error state at 'raise', an overflow in the solver's own step arithmetic is the caller's doing)
     spec['_allow_huge'] = np_err != 'raise'
+    if rng.random() < 0.08:
+        spec['dtype'] = 'float32'  # the model's own dtype= argument: every series, and the solver's step arithmetic, in single precision
+        spec['_allow_huge'] = False  # (huge float64 values would overflow on the way into the model's arrays)
     ops = []
     two = rng.random() < 0.3  # a sibling instance of the same class takes part in the history
     last_t = None
@@ -390,6 +393,10 @@ def gen_parser_schedule(rng, idx, tier):
 # execution
 
 
+def _dtype_kw(spec):
+    return {'dtype': np.float32} if spec.get('dtype') == 'float32' else {}
+
+
 def build(fsic, spec):
     span = spans.make_span(spec['span'])
     if spec['kind'] == 'scripted':
@@ -401,7 +408,9 @@ def build(fsic, spec):
             anyname = (spec['endo'] + spec['exo'] + ['status'])[0]
             attrs = {'ALIASES': {'ALT': anyname, 'ALT2': 'ALT'}} if 'alias' in spec['mixins'] else {}
             cls = type('Mixed', tuple(table[k] for k in spec['mixins']) + (cls,), attrs)
-        m = probes.new_scripted_instance(cls, span, spec['init'])
+        m = probes.new_scripted_instance(cls, span, spec['init'], **_dtype_kw(spec))
+        if spec.get('dtype'):
+            assert all(m.__dict__['_' + nm].dtype == np.float32 for nm in spec['endo'] + spec['exo']), 'harness: dtype= not honoured by the scripted class'
         return m, span, list(spec['endo']), list(spec['check']), list(spec['exo'])
     symbols = fsic.parse_model(spec['script'])
     base = fsic.build_model(symbols)
@@ -524,7 +533,10 @@ def do_solve(m, span, spec, op, endo, check, exo, ctx, step):
         'scripted': spec['kind'] == 'scripted',
         'feasible': True,
         'np_err': ctx.np_err,
+        'dtype': spec.get('dtype'),
     }
+    if spec.get('dtype'):
+        ctx.probe('model-dtype:' + spec['dtype'])
     prop = 'C02' if call_is_finite(call) else 'C06'
     ctx.count('calls:' + prop)
     if op['op'] in ('solve_period', 'solve1') and isinstance(out.get('exc'), KeyError) and not ctl.log:
@@ -581,7 +593,7 @@ def execute(schedule, ctx):
         who = op.get('obj', 0)
         if who not in pool:
             # a sibling: a second instance of the very same class, on its own span object
-            sib = type(pool[0])(spans.make_span(spec['span']))
+            sib = type(pool[0])(spans.make_span(spec['span']), **_dtype_kw(spec))
             for nm, vals in spec['init'].items():
                 sib.__dict__['_' + nm][:] = np.array([probes.fval(v) for v in vals], dtype=float)
             probes.attach_ctl(sib)
